@@ -70,6 +70,19 @@ Definition drop_wf (f : fn_def) : bool :=
   | _ => false
   end.
 
+(* get_or_init IS get_or_try_init with an initialiser that cannot fail (same ownership of the seed
+   on every path, panics included) *)
+Definition get_or_init_wf (f : fn_def) : bool :=
+  match fn_body f with
+  | [EMatch (EMethod (EPath ["self"]) "get_or_try_init" [EClosure [PIdent u None] (ECall (EPath ["Ok"]) [ECall (EPath ["f"]) [EPath [u']]])])
+       [(PTupleStruct ["Ok"] [PIdent v None], None, EPath [v']);
+        (PTupleStruct ["Err"] [PIdent n None], None, EMatch (EPath [n']) [])]] =>
+    String.eqb u u' && String.eqb v v' && String.eqb n n'
+  | _ => false
+  end.
+Lemma get_or_init_delegates : get_or_init_wf OnceInitCell_get_or_init = true.
+Proof. vm_compute. reflexivity. Qed.
+
 Lemma cell_as_modelled :
   get_wf OnceInitCell_get = true /\ dispatch_wf OnceInitCell_get_or_try_init = true /\
   default_wf OnceInitCell_default = true /\ no_drop_wf OnceInitCell_no_drop = true /\
